@@ -110,7 +110,9 @@ Definition flips (k k' : conn) : bool := negb (c_latch k) && c_latch k'.
 
 (* chSend is a bounded queue and c_nq is its length *)
 Definition qok (k : conn) : Prop :=
-  c_nq k = Z.of_nat (length (c_sendf k) + length (c_sendq k)) /\ c_nq k <= chcap.
+  c_nq k = Z.of_nat (length (c_sendf k) + length (c_sendq k)) /\ c_nq k <= chcap /\
+  (* what conn.Close() returned is recorded exactly when the latch is set *)
+  (c_latch k = false -> c_cret k = 0) /\ (c_latch k = true -> c_cret k = 1 \/ c_cret k = 2).
 
 Lemma rev_cons_length {A} (l : list A) x r : rev l = x :: r -> length l = S (length r).
 Proof. intro H. rewrite <- (rev_length l), H. reflexivity. Qed.
@@ -205,13 +207,19 @@ Ltac ku_order_tac :=
 Ltac ku_q_tac :=
   unfold qok, chcap; simpl;
   let Q1 := fresh "Q1" in let Q2 := fresh "Q2" in
-  intros (Q1 & Q2);
+  let Q3 := fresh "Q3" in let Q4 := fresh "Q4" in
+  intros (Q1 & Q2 & Q3 & Q4);
   repeat match goal with H : rev _ = _ :: _ |- _ => apply rev_cons_length in H end;
   repeat match goal with H : c_sendf _ = _ |- _ => rewrite H in * end;
   repeat match goal with H : length (c_sendq _) = _ |- _ => rewrite H in * end;
   simpl length in *;
   repeat match goal with H : (_ <? _) = true |- _ => apply Z.ltb_lt in H end;
-  unfold chcap in *; split; lia.
+  unfold chcap in *;
+  repeat match goal with H : c_latch _ = _ |- _ => rewrite H in * end;
+  split; [lia|]; split; [lia|]; split;
+    try assumption; try (intros; discriminate);
+    try (intros _; match goal with |- context [c_cerr ?k] => destruct (c_cerr k) end; auto);
+    auto.
 
 Ltac ku_tac :=
   constructor;
@@ -523,7 +531,7 @@ Qed.
 
 Lemma step_class s l : step_kind s l.
 Proof.
-  destruct l as [c|b| | |c|c p|c|c|c|d|c t|c n|c|c|cs| | |v].
+  destruct l as [c|b| | |c|c p|c|c|c|c|d|c t|c n|c|c|cs| | |v].
   - (* LDial *) apply sk_silent. simpl. destruct (known s c); repeat split.
   - (* LGate *) apply sk_silent. repeat split.
   - (* LStepA *) apply sk_silent. simpl.
@@ -556,6 +564,8 @@ Proof.
   - (* LWfail *) apply sk_local. simpl. destruct (aget c (conns s)) as [k|] eqn:H; [|apply local_refl].
     eapply conn_eff_local. apply eff_set; [exact H | ku_tac].
   - (* LWstall *) apply sk_local. simpl. destruct (aget c (conns s)) as [k|] eqn:H; [|apply local_refl].
+    eapply conn_eff_local. apply eff_set; [exact H | ku_tac].
+  - (* LCloseErr *) apply sk_local. simpl. destruct (aget c (conns s)) as [k|] eqn:H; [|apply local_refl].
     eapply conn_eff_local. apply eff_set; [exact H | ku_tac].
   - (* LTick *) apply sk_silent. repeat split.
   - (* LStep *) apply sk_local. simpl. destruct (aget c (conns s)) as [k|] eqn:H; [|apply local_refl].
@@ -1697,37 +1707,60 @@ Proof.
     rewrite hmsgs_app, hmsgs_open. simpl. rewrite app_nil_r. apply subseqb_complete. exact S.
 Qed.
 
+Lemma phase_done_inv c v ph : phase_run c PhDone v = Some ph -> v = [] /\ ph = PhDone.
+Proof. destruct v as [|h v]; simpl; intro H; [inv H; auto | destruct h; discriminate]. Qed.
+
+Lemma phase_rem2_inv c id v ph :
+  phase_run c (PhRem2 id) v = Some ph ->
+  (v = [] /\ ph = PhRem2 id) \/ (v = [HCloseCb c id] /\ ph = PhDone).
+Proof.
+  destruct v as [|h v]; simpl; intro H; [inv H; auto|].
+  destruct h as [c' i|c' i m|m|c' i g|c' i|c' i]; simpl in H; try discriminate.
+  destruct (Z.eqb_spec c c'); [|discriminate]. destruct (Z.eqb_spec id i); [|discriminate].
+  subst c' i. simpl in H. apply phase_done_inv in H. destruct H as (E1 & E2). subst. auto.
+Qed.
+
+Lemma phase_rem_inv c id v ph :
+  phase_run c (PhRem id) v = Some ph ->
+  (v = [] /\ ph = PhRem id) \/ (v = [HOnClose c id] /\ ph = PhRem2 id) \/
+  (v = [HOnClose c id; HCloseCb c id] /\ ph = PhDone).
+Proof.
+  destruct v as [|h v]; simpl; intro H; [inv H; auto|].
+  destruct h as [c' i|c' i m|m|c' i g|c' i|c' i]; simpl in H; try discriminate.
+  destruct (Z.eqb_spec c c'); [|discriminate]. destruct (Z.eqb_spec id i); [|discriminate].
+  subst c' i. simpl in H. apply phase_rem2_inv in H.
+  destruct H as [(E1 & E2)|(E1 & E2)]; subst; auto.
+Qed.
+
 Lemma phase_open_inv c id v : forall ph,
   phase_run c (PhOpen id) v = Some ph ->
   (ph = PhOpen id /\ v = map (HMsg c id) (hmsgs v)) \/
   (ph = PhRem id /\ v = map (HMsg c id) (hmsgs v) ++ [HRemove c id true]) \/
+  (ph = PhRem2 id /\ v = map (HMsg c id) (hmsgs v) ++ [HRemove c id true; HOnClose c id]) \/
   (ph = PhDone /\ v = map (HMsg c id) (hmsgs v) ++ closing c id).
 Proof.
   induction v as [|h v IH]; intros ph H; simpl in H.
   - inv H. left. split; reflexivity.
-  - destruct h as [c' i|c' i m|m|c' i g|c' i]; simpl in H; try discriminate.
+  - destruct h as [c' i|c' i m|m|c' i g|c' i|c' i]; simpl in H; try discriminate.
     + destruct (Z.eqb_spec c c'); [|discriminate]. destruct (Z.eqb_spec id i); [|discriminate].
       subst c' i. simpl in H.
-      destruct (IH ph H) as [(E1 & E2)|[(E1 & E2)|(E1 & E2)]]; simpl;
-        [left | right; left | right; right]; (split; [exact E1|]); f_equal; exact E2.
+      destruct (IH ph H) as [(E1 & E2)|[(E1 & E2)|[(E1 & E2)|(E1 & E2)]]]; simpl;
+        [left | right; left | right; right; left | right; right; right];
+        (split; [exact E1|]); f_equal; exact E2.
     + destruct (Z.eqb_spec c c'); [|discriminate]. destruct (Z.eqb_spec id i); [|discriminate].
-      destruct g; [|discriminate]. subst c' i. simpl in H.
-      destruct v as [|h2 v2]; simpl in H.
-      * inv H. right. left. split; reflexivity.
-      * destruct h2 as [c2 i2|c2 i2 m2|m2|c2 i2 g2|c2 i2]; simpl in H; try discriminate.
-        destruct (Z.eqb_spec c c2); [|discriminate]. destruct (Z.eqb_spec id i2); [|discriminate].
-        subst c2 i2. simpl in H. destruct v2; simpl in H; [|discriminate].
-        inv H. right. right. split; reflexivity.
+      destruct g; [|discriminate]. subst c' i. simpl in H. apply phase_rem_inv in H.
+      destruct H as [(E1 & E2)|[(E1 & E2)|(E1 & E2)]]; subst; simpl;
+        [right; left | right; right; left | right; right; right]; split; reflexivity.
 Qed.
 
 Lemma life_b_sound c v arrived : life_b c v arrived = true -> life_prefix c v arrived.
 Proof.
   unfold life_b. destruct v as [|h v]; [left; reflexivity|].
-  simpl. destruct h as [c' id|c' id m|m|c' id g|c' id]; simpl; try discriminate.
+  simpl. destruct h as [c' id|c' id m|m|c' id g|c' id|c' id]; simpl; try discriminate.
   destruct (Z.eqb_spec c c'); [|discriminate]. subst c'.
   destruct (phase_run c (PhOpen id) v) as [ph|] eqn:P; [|discriminate].
   intro S. right. exists id, (hmsgs v).
-  destruct (phase_open_inv c id v ph P) as [(E1 & E2)|[(E1 & E2)|(E1 & E2)]]; subst ph; try discriminate.
+  destruct (phase_open_inv c id v ph P) as [(E1 & E2)|[(E1 & E2)|[(E1 & E2)|(E1 & E2)]]]; subst ph; try discriminate.
   - split; [apply subseqb_sound; exact S|]. left. unfold life_open. f_equal. exact E2.
   - split; [apply subseqb_sound; exact S|]. right. unfold life_open. simpl. f_equal. exact E2.
 Qed.
@@ -1743,22 +1776,42 @@ Proof.
     destruct C as (k2 & H2 & U). rewrite H2 in H'. inv H'. apply (ku_q _ _ _ U). apply (I c k H).
   - rewrite C in H'. apply (I c k' H').
   - rewrite C in H'. destruct (Z.eqb c c0); [|apply (I c k' H')].
-    inv H'. unfold qok, conn0, chcap. simpl. lia.
+    inv H'. unfold qok, conn0, chcap. simpl. repeat split; try lia; intros; discriminate.
   - subst. simpl in H'. rewrite O, Q in H'. apply (I c k' H').
   - subst. simpl in H'. rewrite O in H'. apply (I c k' H').
+Qed.
+
+Lemma qok_reach n tr c k :
+  aget c (conns (run_from (init_with n) tr)) = Some k -> qok k.
+Proof.
+  assert (G : forall tr s, (forall c k, aget c (conns s) = Some k -> qok k) ->
+                           forall c k, aget c (conns (run_from s tr)) = Some k -> qok k).
+  { intro tr0. induction tr0 as [|l tr0 IH]; intros s I; simpl; [exact I|].
+    apply IH. apply qok_step. exact I. }
+  intro H. apply (G tr (init_with n)) with (c := c); [|exact H].
+  intros c0 k0 X. discriminate.
 Qed.
 
 Lemma chsend_bounded n tr c k :
   aget c (conns (run_from (init_with n) tr)) = Some k ->
   c_nq k = Z.of_nat (length (c_sendf k) + length (c_sendq k)) /\ 0 <= c_nq k <= chcap.
 Proof.
-  assert (G : forall tr s, (forall c k, aget c (conns s) = Some k -> qok k) ->
-                           forall c k, aget c (conns (run_from s tr)) = Some k -> qok k).
-  { intro tr0. induction tr0 as [|l tr0 IH]; intros s I; simpl; [exact I|].
-    apply IH. apply qok_step. exact I. }
-  intro H. destruct (G tr (init_with n)) with (c := c) (k := k) as (Q1 & Q2); [|exact H|].
-  - intros c0 k0 X. discriminate.
-  - split; [exact Q1 | lia].
+  intro H. destruct (qok_reach n tr c k H) as (Q1 & Q2 & _). split; [exact Q1 | lia].
+Qed.
+
+(* whatever conn.Close() returns - and whichever goroutine made the call: every Close goes
+   through the one latch - the connection is closed exactly when Close() has run once, the
+   Remove is posted once and the callbacks fired once *)
+Lemma close_outcome n tr c k :
+  let s := run_from (init_with n) tr in
+  conn_of s c = Some k ->
+  (c_latch k = false -> c_cret k = 0 /\ count_remove c (posted s) = 0%nat /\ c_ncb k = 0) /\
+  (c_latch k = true -> (c_cret k = 1 \/ c_cret k = 2) /\ count_remove c (posted s) = 1%nat /\ c_ncb k = 1).
+Proof.
+  simpl. intro H. destruct (qok_reach n tr c k H) as (_ & _ & Q3 & Q4).
+  destruct (remove_once n tr c) as (R1 & R2). simpl in R1, R2.
+  unfold latch_of, ncb_of, conn_of in *. rewrite H in R1, R2.
+  split; intro L; rewrite L in R1, R2; auto.
 Qed.
 
 (* ------------------------------------------------------------------ no sender left behind *)
@@ -1812,10 +1865,11 @@ Qed.
 Lemma pf_step s l :
   match l with LDial _ | LStepA | LStepS => True | _ => pf (step s l) = pf s end.
 Proof.
-  destruct l as [c|b| | |c|c p|c|c|c|d|c t|c n|c|c|cs| | |v]; try exact I; simpl.
+  destruct l as [c|b| | |c|c p|c|c|c|c|d|c t|c n|c|c|cs| | |v]; try exact I; simpl.
   - reflexivity.
   - destruct (zmem c (dialed s)); [reflexivity|]. unfold connect. destruct (aget c (conns s)); reflexivity.
   - destruct (aget c (conns s)) as [k|]; [|reflexivity]. destruct (c_eof k); reflexivity.
+  - destruct (aget c (conns s)); reflexivity.
   - destruct (aget c (conns s)); reflexivity.
   - destruct (aget c (conns s)); reflexivity.
   - destruct (aget c (conns s)); reflexivity.
@@ -1878,7 +1932,7 @@ Proof.
       + subst. simpl. rewrite O, Q. exact N.
       + subst. simpl. rewrite O. exact N. }
   pose proof (pf_step s l) as PF.
-  destruct l as [c|b| | |c|c p|c|c|c|d|c t|c n|c|c|cs| | |v];
+  destruct l as [c|b| | |c|c p|c|c|c|c|d|c t|c n|c|c|cs| | |v];
     try (apply OTHER; [exact PF | intros c0 [X|X]; discriminate]).
   - (* LDial *) simpl. unfold known. destruct (zmem c (dialed s)) eqn:Dl; [exact A|]. simpl.
     destruct (aget c (conns s)) eqn:H; [exact A|].
